@@ -845,9 +845,23 @@ def p5(e: Engine, rep: Report):
         ip = path_of(lp.ast.iter, lp.frame)
         if retv is None or ip is None:
             return None
-        if ip == retv:
-            return 'outputs'
         defs = common.reaching_defs(g, lp, ip)
+        if ip == retv:
+            # the variable apply() was assigned to, possibly re-bound to
+            # `(current, )` on the branch where it came back empty
+            if not defs or any(d is None or not isinstance(d.ast, ast.Assign)
+                               for d in defs):
+                return 'outputs'
+            alt = [d for d in defs if d.ast.value is not app[0].ast]
+            if alt and all(
+                    isinstance(d.ast.value, (ast.Tuple, ast.List)) and
+                    len(d.ast.value.elts) == 1 and
+                    isinstance(d.ast.value.elts[0], ast.Name) and
+                    d.ast.value.elts[0].id == cur and
+                    holds(fx.at(d), (False, retv)) for d in alt) and \
+                    len(alt) < len(defs):
+                return 'successors'
+            return 'outputs'
         if not defs or any(d is None or not isinstance(d.ast, ast.Assign)
                            for d in defs):
             return None
